@@ -1,0 +1,9 @@
+//go:build !verif
+
+package ecs
+
+import "unsafe"
+
+const verifOn = false
+
+func verifRawCopy(a *archetype, dst unsafe.Pointer, size uint32) {}
